@@ -173,6 +173,37 @@ def kidsLoops : List Bytes := [
   baseDoc textContent [] none (bs "[8 0 R]") [] [] []
     [obj 8 (bs "9 0 R"), obj 9 (bs "10 0 R"), obj 10 (bs "8 0 R")]]
 
+/-- reference-chain shapes starting at object 20: (objects 20.., description) -/
+def chainShapes (target : Bytes) : List (List Bytes) := [
+  [obj 20 (bs "20 0 R")],                                                        -- self
+  [obj 20 (bs "21 0 R"), obj 21 (bs "20 0 R")],                                  -- cycle through the start
+  [obj 20 (bs "21 0 R"), obj 21 (bs "22 0 R"), obj 22 (bs "21 0 R")],            -- lasso: tail enters a cycle that excludes the start
+  [obj 20 (bs "21 0 R"), obj 21 (bs "22 0 R"), obj 22 (bs "23 0 R"), obj 23 (bs "22 0 R")],
+  [obj 20 (bs "21 0 R"), obj 21 (bs "22 0 R"), obj 22 target],                   -- acyclic chain to a value
+  [obj 20 (bs "21 0 R")],                                                        -- dangling
+  [obj 20 (bs "[20 0 R 21 0 R]"), obj 21 (bs "<< /A 20 0 R /B 21 0 R >>")]]     -- cyclic containers
+
+/-- a one-page document in which the value at one position is `20 0 R`; objects 8..19 are padding -/
+def chainDoc (pos : Nat) (chain : List Bytes) : Bytes :=
+  let r : Bytes := bs "20 0 R"
+  let atp (k : Nat) (dflt : Bytes) : Bytes := if pos == k then r else dflt
+  let pad : List Bytes := (List.range 12).map fun k => obj (8 + k) (bs "null")
+  assemble hdr
+    ([obj 1 (bs "<< /Type /Catalog /Pages " ++ atp 0 (bs "2 0 R") ++ bs " >>"),
+      obj 2 (bs "<< /Type /Pages /Kids " ++ atp 1 (bs "[3 0 R]") ++ bs " /Count " ++ atp 2 (bs "1") ++ bs " /Resources " ++ atp 3 (bs "<< >>") ++ bs " >>"),
+      obj 3 (bs "<< /Type /Page /Parent 2 0 R /MediaBox " ++ atp 4 (bs "[0 0 612 792]") ++ bs " /Contents " ++ atp 5 (bs "4 0 R") ++
+             bs " /Resources " ++ atp 6 (bs "<< /Font " ++ atp 7 (bs "<< /F1 " ++ atp 8 (bs "5 0 R") ++ bs " >>") ++ bs " >>") ++ bs " >>"),
+      streamObj 4 (bs "/Filter " ++ atp 9 (bs "[]") ++ bs " /DecodeParms " ++ atp 10 (bs "[]")) (atp 11 (natStr textContent.length)) textContent,
+      obj 5 (bs "<< /Type /Font /Subtype /Type1 /BaseFont " ++ atp 12 (bs "/Helvetica") ++ bs " /Encoding " ++ atp 13 (bs "/WinAnsiEncoding") ++
+             bs " /FontDescriptor " ++ atp 14 (bs "6 0 R") ++ bs " >>"),
+      obj 6 (bs "<< /Type /FontDescriptor /FontName /Helvetica /FontFile " ++ atp 15 (bs "7 0 R") ++ bs " /Flags " ++ atp 16 (bs "32") ++ bs " >>"),
+      streamObj 7 [] (bs "3") (bs "abc")] ++ pad ++ chain)
+    [] (atp 17 (bs "1 0 R"))
+
+def chainTargets : List Bytes :=
+  [bs "[3 0 R]", bs "<< /Font << /F1 5 0 R >> >>", bs "<< /F1 5 0 R >>", bs "/WinAnsiEncoding", bs "<< /Type /Encoding /Differences [1 /a] >>",
+   bs "7", bs "/FlateDecode", bs "null"]
+
 def predictorParms : List String :=
   ["/Predictor 12 /Columns 4", "/Predictor 15 /Columns 1", "/Predictor 2 /Colors 3 /Columns 2 /BitsPerComponent 16",
    "/Predictor 12 /Columns -1", "/Predictor 12 /Columns 0", "/Predictor 12 /Columns 9223372036854775807 /Colors 4",
@@ -192,6 +223,11 @@ def gen (seed n : Nat) (tier : String) (emit : String → IO Unit) : IO Unit := 
     doc (p (obj 9 (bs "[9 0 R]")))
     doc (p (obj 9 (bs "<< /Kids 9 0 R /Contents 9 0 R /Type /Pages /Count 1 /Length 9 0 R >>")))
   for d in kidsLoops do doc d
+  -- every reference position x every chain shape (self, cycle, lasso, long, dangling, cyclic containers)
+  for pos in List.range 18 do
+    for tgt in [bs "null", bs "<< /F1 5 0 R >>", bs "[3 0 R]", bs "/WinAnsiEncoding"] do
+      for ch in chainShapes tgt do
+        doc (chainDoc pos ch)
   for pp in predictorParms do
     let data := zlibStored ([1, 1, 2, 3, 4, 2, 1, 1, 1, 1] ++ textContent)
     doc (baseDoc data (bs "/Filter /FlateDecode /DecodeParms << " ++ bs pp ++ bs " >>") none (bs "[3 0 R]") [] [] [] [])
